@@ -7,7 +7,7 @@ interpreted on a terminal emulator (mc/term.py).
 
 Operation = (clock advance in ticks, name, argument); the clock advance happens first, then the call:
     start() | start(5) | advance(1) | advance(3) | set_progress(p), p in {0, max//2, max, max+2, -1}
-    | display | clear | finish | set_message(short | long | <info>tagged</info>)  (formats with %message%)
+    | display | clear | finish | set_message(short | long | <b>tagged</b>: a style-set tag, not one the Pastel library knows by itself)  (formats with %message%)
     x clock advance in {0, 10, 50, 200, 2000} ticks of 1/1024 s (0, 9.8 ms, 48.8 ms, 195 ms, 1.95 s)
 The virtual clock counts in ticks of 2**-10 s from the epoch 2**20 s, not in milliseconds: every clock reading and
 every difference of two readings is then an exact double, so what the bar computes from the clock is a function of
@@ -119,7 +119,7 @@ BIGW = 400  # emulator width for the plain ANSI output: no frame of the alphabet
 NEWMAX = 5
 CAP_TICKS = 1024  # 1 s = the largest threshold the redraw decision compares with
 CLOCKS = (0, 10, 50, 200, 2000)
-MSG = {"short": "go", "long": "a much longer message text", "tagged": "<info>tagged</info>"}
+MSG = {"short": "go", "long": "a much longer message text", "tagged": "<b>tagged</b>"}
 VISIBLE = {"short": "go", "long": "a much longer message text", "tagged": "tagged"}
 
 CUSTOM = {
